@@ -370,7 +370,7 @@ impl Engine for C20 {
         format!(
             "every label the server offers at file level, in a type position, in a value position and after '!' (obtained from the real completion handler; the '!' additions as the multiset difference with/without trigger); \
              lexer probes: every lowercase word of length <= {}, every single-edit neighbour (deletion, substitution, insertion over [a-z0-9]) of every offered or source-listed operator name, and the names in lexer.rs's operator arms; \
-             class completion at every offset of every parent-class name of every class/def of every file (root and included) of every workspace over the stress menu extended by 16 classes whose parameter defaults have no computable type (!cond, undefined name, class name as a value, bit range of an integer, unresolved field access) (<= {} statements, one- and two-file) and every seed. \
+             class completion at every offset of every parent-class name of every class/def of every file (root and included) of every workspace over the stress menu extended by 16 classes whose parameter defaults have no computable type (!cond, undefined name, class name as a value, bit range of an integer, unresolved field access) and 8 classes with parameters of every type form (bits<64>, bits<65>, bits<96>, list<bits<128>>, list<list<string>>, dag, code, bit) (<= {} statements, one- and two-file) and every seed. \
              non-trivial = offered labels, probes the lexer accepts as operators, workspaces with a parent-class position.",
             tier.pick(4, 5),
             tier.pick(2, 3)
@@ -466,6 +466,9 @@ impl Engine for C20 {
                 "class X<int a = undefinedName, string b = \"s\"> : Y;",
                 "class X<int a = Y, int b = a> : Y;",
                 "class X<int a = 5{0}, int b = later.f> : Y;",
+                // every type form is a parameter type: bit strings wider than a machine word, nested lists, dag, code
+                "class X<bits<96> a, int b, list<bits<128>> c> : Y;",
+                "class X<bits<64> a, bits<65> b = 0, dag c, code d, list<list<string>> e, bit g> : Y;",
             ] {
                 for x in ["A", "B"] {
                     for y in ["A", "B"] {
